@@ -126,6 +126,10 @@ func (w *rpWalk) msg(m protoreflect.Message, depth int, path string) {
 			w.bad("any-undecodable", fmt.Sprintf("%s: value does not decode as %s: %v", path, url, err))
 			return
 		}
+		if u := inner.GetUnknown(); len(u) > 0 {
+			w.bad("any-undecodable", fmt.Sprintf("%s: value decodes as %s only with unknown fields %x: it was generated for another message type", path, url, u))
+			return
+		}
 		w.msg(inner, depth+1, path+".(any)")
 		return
 	}
@@ -340,6 +344,10 @@ func engineRapidp(rep *Report) {
 					if err := proto.Unmarshal(rb, back); err != nil || !proto.Equal(back, ref) {
 						rep.Violate("C18", "rapidp/roundtrip", tn, fmt.Sprintf("drawn message does not round-trip: %v", err), rc)
 					}
+					// what came out of the wire is what was drawn (read through reflection, field by field)
+					if drawnIR, refIR := SpecEncode(quietF32(Canon(ReflToIR(m.ProtoReflect())))), SpecEncode(quietF32(Canon(ReflToIR(ref)))); !bytes.Equal(drawnIR, refIR) {
+						rep.Violate("C18", "rapidp/roundtrip-loses-data", tn, "the drawn message, encoded and decoded by the reference, is another value: "+firstDiff(refIR, drawnIR), rc)
+					}
 					if i == 0 && oi == 0 && variant == 0 && ti < 2 {
 						rep.Sample("C18", map[string]interface{}{"type": tn, "options": fmt.Sprintf("%+v", o), "rapid_seed": seed, "encoding_hex": hx(rb)})
 					}
@@ -351,6 +359,7 @@ func engineRapidp(rep *Report) {
 		rapidpOptionalMessage(rep)
 		rapidpGroups(rep)
 		rapidpDrawLog(rep)
+		rapidpTwoResolvers(rep)
 	}
 	setProgress(-1, -1, 0)
 }
@@ -786,4 +795,58 @@ func reachesAny(d MD) bool {
 		return false
 	}
 	return visit(d)
+}
+
+// rapidpTwoResolvers: two option sets in one process whose resolvers map the same type URL to different message
+// types: every Any is built for the type its own resolver names.
+func rapidpTwoResolvers(rep *Report) {
+	mk := func(rev int) (*protoregistry.Types, MD) {
+		k := descriptorpb.FieldDescriptorProto_TYPE_STRING
+		if rev == 2 {
+			k = descriptorpb.FieldDescriptorProto_TYPE_FIXED64
+		}
+		fdp := &descriptorpb.FileDescriptorProto{Name: proto.String(fmt.Sprintf("vfdyn/any%d.proto", rev)), Package: proto.String("vf.dynany"), Syntax: proto.String("proto3"),
+			Dependency: []string{"google/protobuf/any.proto"},
+			MessageType: []*descriptorpb.DescriptorProto{
+				{Name: proto.String("Payload"), Field: []*descriptorpb.FieldDescriptorProto{
+					{Name: proto.String("v"), Number: proto.Int32(1), Label: descriptorpb.FieldDescriptorProto_LABEL_OPTIONAL.Enum(), Type: k.Enum()},
+					{Name: proto.String("w"), Number: proto.Int32(int32(1 + rev)), Label: descriptorpb.FieldDescriptorProto_LABEL_REPEATED.Enum(), Type: descriptorpb.FieldDescriptorProto_TYPE_SINT32.Enum()}}},
+				{Name: proto.String("Carrier"), Field: []*descriptorpb.FieldDescriptorProto{
+					{Name: proto.String("one"), Number: proto.Int32(1), Label: descriptorpb.FieldDescriptorProto_LABEL_OPTIONAL.Enum(), Type: descriptorpb.FieldDescriptorProto_TYPE_MESSAGE.Enum(), TypeName: proto.String(".google.protobuf.Any")},
+					{Name: proto.String("many"), Number: proto.Int32(2), Label: descriptorpb.FieldDescriptorProto_LABEL_REPEATED.Enum(), Type: descriptorpb.FieldDescriptorProto_TYPE_MESSAGE.Enum(), TypeName: proto.String(".google.protobuf.Any")}}},
+			}}
+		fd, err := protodesc.NewFile(fdp, protoregistry.GlobalFiles)
+		if err != nil {
+			rep.Notes = append(rep.Notes, "two-resolver descriptor: "+err.Error())
+			return nil, nil
+		}
+		ts := new(protoregistry.Types)
+		_ = ts.RegisterMessage(dynamicpb.NewMessageType(fd.Messages().ByName("Payload")))
+		return ts, fd.Messages().ByName("Carrier")
+	}
+	for round := 0; round < 2; round++ {
+		for rev := 1; rev <= 2; rev++ {
+			ts, carrier := mk(rev)
+			if ts == nil {
+				rep.Inconclusive("C18", "two-resolver-descriptor-rejected")
+				return
+			}
+			gopts := rapidproto.GeneratorOptions{Resolver: ts, AnyTypeURLs: []string{"/vf.dynany.Payload"}, DisallowNilMessages: true, NoEmptyLists: true}
+			gen := rapidproto.MessageGenerator[proto.Message](dynamicpb.NewMessage(carrier), gopts)
+			for i := 0; i < 40; i++ {
+				seed := int(caseSeed(*flagSeed, "vf.dynany.Carrier", i, fmt.Sprintf("rapidp-res%d-%d", rev, round)) & 0x7fffffff)
+				rc := map[string]interface{}{"engine": "rapidp", "type": "vf.dynany.Carrier", "seed": *flagSeed, "rapid_seed": seed, "resolver_revision": rev}
+				var m proto.Message
+				pan, pmsg := safely(func() { m = gen.Example(seed) })
+				rep.Eval("C18", []byte(fmt.Sprintf("two-resolvers|%d|%d|%d", rev, round, seed)), true)
+				rep.Count("C18", "draws/two-resolvers-same-url", 1)
+				if pan {
+					rep.Violate("C18", "rapidp/draw-fails", "vf.dynany.Carrier", pmsg, rc)
+					return
+				}
+				w := &rpWalk{rep: rep, tn: "vf.dynany.Carrier", rc: rc, o: rpOpts{noNil: true, noEmpty: true, anys: true}, types: ts, urls: map[string]bool{"/vf.dynany.Payload": true}, stats: map[string]int{}}
+				w.msg(m.ProtoReflect(), 0, "vf.dynany.Carrier")
+			}
+		}
+	}
 }
